@@ -382,6 +382,42 @@ func (c *Ctx) streamChain(rule string) {
 							}
 						}
 					}
+					// … or inside an info object a helper builds from the requested stream: the helper is given the
+					// stream and every store it makes into a send-info Stream field stores that parameter (converted)
+					for _, a := range ci.Common().Args {
+						hc, ok := a.(*ssa.Call)
+						if !ok {
+							continue
+						}
+						h := flow.StaticCallee(hc)
+						if h == nil || h.Blocks == nil || !c.P.IsLibrary(h) {
+							continue
+						}
+						for j, ha := range hc.Call.Args {
+							p, isP := flow.Peel(ha).(*ssa.Parameter)
+							if !isP || paramIndex(f, p) != own || j >= len(h.Params) {
+								continue
+							}
+							stores, good := 0, true
+							flow.Instrs(h, func(in ssa.Instruction) {
+								st, ok := in.(*ssa.Store)
+								if !ok {
+									return
+								}
+								tn, fld, _, ok := flow.FieldOf(st.Addr)
+								if !ok || tn != "SndRcvInfo" || fld != "Stream" {
+									return
+								}
+								stores++
+								if hp, isHP := flow.Peel(st.Val).(*ssa.Parameter); !isHP || hp != h.Params[j] {
+									good = false
+								}
+							})
+							if stores > 0 && good {
+								inObj = true
+							}
+						}
+					}
 					// … or inside a closure passed in the same call, which hands it unchanged to a stream-taking write
 					for _, a := range ci.Common().Args {
 						mc, ok := a.(*ssa.MakeClosure)
